@@ -51,12 +51,21 @@ def check_obj(ctx, ver, s, o, atlas):
     if ver == "4":
         if o.severity != sev[0] or getattr(o, "base_score", None) != sc[0]:
             ctx.violation("v4:severity-attribute", "CVSS4.severity / base_score disagree with severities() / scores()", s, sev[0], o.severity, replay=rp)
-    for i, k in enumerate(JSEV[ver]):
-        if k is not None and k in js and str(js[k]).upper() != sev[i].upper():
-            ctx.violation("v%s:json-%s" % (ver, k), "JSON rating disagrees with severities()", s, sev[i], js[k], replay=rp)
-    for i, k in enumerate(JSCORE[ver]):
-        if k in js and sc[i] is not None and js[k] != sc[i]:
-            ctx.violation("v%s:json-%s" % (ver, k), "JSON score disagrees with scores()", s, sc[i], js[k], replay=rp)
+    for so in (False, True):
+        for mi in (False, True):
+            try:
+                js = o.as_json(sort=so, minimal=mi)
+            except Exception as ex:  # noqa
+                ctx.violation("v%s:as_json-raised" % ver, "as_json() raised", s, None, repr(ex), replay=rp)
+                continue
+            for i, k in enumerate(JSEV[ver]):
+                if k is not None and k in js and str(js[k]).upper() != sev[i].upper():
+                    ctx.violation("v%s:json-%s" % (ver, k), "JSON rating disagrees with severities()", s, sev[i],
+                                  {"sort": so, "minimal": mi, k: js[k]}, replay=rp)
+            for i, k in enumerate(JSCORE[ver]):
+                if k in js and sc[i] is not None and js[k] != sc[i]:
+                    ctx.violation("v%s:json-%s" % (ver, k), "JSON score disagrees with scores()", s, sc[i],
+                                  {"sort": so, "minimal": mi, k: js[k]}, replay=rp)
 
 
 def run(ctx):
@@ -72,6 +81,7 @@ def run(ctx):
     for _ in range(ctx.n(30000, 600000)):
         ver = rng.choice("234")
         todo.append((ver, core.rand_vector(ver, rng, p_absent=rng.choice([0.1, 0.4, 0.8]))))
+    todo += [("2", s) for s in core.v2_low_family()]
     ctx.count(len(todo))
     objs = []
     for ver, s in todo:
